@@ -386,6 +386,7 @@ func main() {
 	ifaName := flag.String("ifa", "vc3a", "interface the engine listens on")
 	ifbName := flag.String("ifb", "vc3b", "peer interface the frames are injected on")
 	replay := flag.String("replay", "", "JSON file with explicit cases [{w,subnet,ports,frames}]")
+	closerace := flag.Bool("closerace", false, "close-race stage: a frame read before Source.Close is processed after it")
 	cli := flag.String("cli", "", "JSON file with command lines to run through the real RunE (CLI stage)")
 	tunName := flag.String("tun", "vc3t", "tun device for the VPN-mode command lines")
 	flag.Parse()
@@ -416,6 +417,10 @@ func main() {
 	defer inj.Close()
 	w := hlib.NewOut(*out)
 	defer w.Close()
+	if *closerace {
+		closeRaceStage(w, ws, *seed, ifa, inj)
+		return
+	}
 	r := hlib.NewRand(*seed)
 	if *replay != "" {
 		raw, err := os.ReadFile(*replay)
